@@ -162,6 +162,7 @@ type Exec struct {
 	syncLog      []syncEv
 	lastNow      *nowRec
 	cstack       []*ssa.Function
+	pcSet        map[int]bool
 }
 
 func (x *Exec) end(kind endKind, format string, args ...any) {
@@ -203,6 +204,15 @@ func (x *Exec) addPC(c *Term) {
 		return
 	}
 	x.pc = append(x.pc, c)
+	if x.pcSet == nil {
+		x.pcSet = map[int]bool{}
+	}
+	x.pcSet[c.id] = true
+	// conjunctions contribute their conjuncts
+	if c.op == OpAnd {
+		x.pcSet[c.args[0].id] = true
+		x.pcSet[c.args[1].id] = true
+	}
 }
 
 // branch decides a symbolic condition; returns the chosen truth value.
@@ -229,6 +239,14 @@ func (x *Exec) branch(c *Term) bool {
 	}
 	if len(x.trace) >= x.eng.cfg.MaxDecisions {
 		x.end(endBudget, "more than %d decisions on one path", x.eng.cfg.MaxDecisions)
+	}
+	if x.pcSet[c.id] {
+		x.trace = append(x.trace, Decision{DecBranch, 1})
+		return true
+	}
+	if x.pcSet[x.st.Not(c).id] {
+		x.trace = append(x.trace, Decision{DecBranch, 0})
+		return false
 	}
 	rt := x.check(c, false)
 	if rt == Unknown {
